@@ -179,9 +179,12 @@ class C06(Check):
             for fr in OPTION_FRAMES:
                 for sink in (None, 'csv', 'parquet'):
                     for stale in ((False, True) if sink else (False,)):
+                        three = len(fr['cols'][0]['vals']) == 3
                         for ix in (None, [10, 20, 30]):
-                            if ix and len(fr['cols'][0]['vals']) != 3:
+                            if ix and not three:
                                 continue
+                            if tier == 'quick' and sink and three and not ix:
+                                continue     # files: labelled index only
                             for half in (0, 1, 2, 3):
                                 yield {'L': 'options', 'frame': fr,
                                        'sink': sink, 'stale': stale,
